@@ -183,6 +183,10 @@ def run_kani(crate, harness, timeout=1800, extra_args=None):
     elif "VERIFICATION:- FAILED" in out:
         status = "failure"
     failed = re.findall(r"^Failed Checks: (.*)$", out, re.M)
+    if status == "failure" and failed and all("unwinding assertion" in f for f in failed):
+        # the only failing checks say "a loop needs more unwinding than the harness allows": the changed code left the harness' bound
+        # (typically real field arithmetic where a stub used to stand) - a tool limit, not a refuted assertion
+        status = "error"
     stubs = re.findall(r"^\s*- Stub: (.*)$", out, re.M)
     res = {"crate": crate, "harness": harness, "status": status, "wall": wall, "rc": rc, "failed_checks": failed[:10],
            "stubs": stubs, "cmd": " ".join(cmd), "tail": out[-3000:] if status != "success" else out[-400:], "cache_hit": False}
